@@ -1,7 +1,7 @@
 SPECIFICATION Spec
 CONSTANTS
-  Tier = "full"
-  EnvDefects = {}
+  Tier = "quick"
+  EnvDefects = {"HashComparedAsBytes"}
 INVARIANT Inv_Membership
 INVARIANT Inv_CostMinusFee
 INVARIANT Inv_EffectiveBounded
